@@ -837,7 +837,19 @@ func runF9(p *an.Prog, r *an.Result) {
 				switch an.CallName(c) {
 				case "math.Floor", "math.Ceil", "math.Round", "math.Trunc", "math.RoundToEven":
 				default:
-					rounded = false
+					// a rounding function handed in as a value (an adapter integral(math.Ceil)): every function
+					// that can be the callee is one of them
+					cands := funcValueCandidates(p, fn, c)
+					if len(cands) == 0 {
+						rounded = false
+					}
+					for _, cf := range cands {
+						switch an.FuncName(cf) {
+						case "math.Floor", "math.Ceil", "math.Round", "math.Trunc", "math.RoundToEven":
+						default:
+							rounded = false
+						}
+					}
 				}
 			}
 			if rounded && n > 0 {
@@ -1981,4 +1993,52 @@ func runX18(p *an.Prog, r *an.Result) {
 		}
 	}
 	r.Floor("contains evaluation steps", 1)
+}
+
+// funcValueCandidates: the functions a dynamic call in fn can reach when its function value is a parameter
+// of fn, or a variable captured from the enclosing function that is that function's parameter - read off
+// the arguments at every call site. Empty when it cannot be enumerated.
+func funcValueCandidates(p *an.Prog, fn *ssa.Function, c *ssa.CallCommon) []*ssa.Function {
+	if c.IsInvoke() || c.StaticCallee() != nil {
+		return nil
+	}
+	v := c.Value
+	var par *ssa.Parameter
+	if pp, ok := v.(*ssa.Parameter); ok {
+		par = pp
+	} else if ld, ok := v.(*ssa.UnOp); ok {
+		if fv, ok := ld.X.(*ssa.FreeVar); ok && fn.Parent() != nil {
+			if al, ok := cellOfFreeVar(fn.Parent(), fn, fv).(*ssa.Alloc); ok {
+				if st := an.Stores(al); len(st) == 1 {
+					par, _ = st[0].(*ssa.Parameter)
+				}
+			}
+		}
+	}
+	if par == nil {
+		return nil
+	}
+	owner := par.Parent()
+	idx := -1
+	for i, pp := range owner.Params {
+		if pp == par {
+			idx = i
+		}
+	}
+	sites := callSitesOf(p, owner)
+	if idx < 0 || len(sites) == 0 {
+		return nil
+	}
+	var out []*ssa.Function
+	for _, s := range sites {
+		if idx >= len(s.Call.Args) {
+			return nil
+		}
+		f, ok := an.Strip(s.Call.Args[idx]).(*ssa.Function)
+		if !ok {
+			return nil
+		}
+		out = append(out, f)
+	}
+	return out
 }
